@@ -70,10 +70,10 @@ Universe ==
     THEN {Mk(AN, "bind", "layout", 1), Mk(AN, "bind", "layout", 2), Mk(AB, "rbind", "layout", 1),
           Mk(ANM, "bind", "layout", 1), Mk(A, "tmpfs", "layout", 1), Mk(ABC, "bind", "", 1),
           Mk(A, "rbind", "overname", 1), Mk(AG, "file", "layout", 1)}
-    ELSE {Mk(p, typ, g, 1) : p \in {A, AB, AN}, typ \in {"bind", "tmpfs"}, g \in {"layout", "", "overname"}}
-         \cup {Mk(AN, "bind", "layout", 2), Mk(ANM, "bind", "layout", 1), Mk(ANM, "tmpfs", "", 1),
-               Mk(ABC, "bind", "", 1), Mk(AG, "file", "layout", 1), Mk(AK, "symlink", "layout", 1),
-               Mk(DN, "bind", "", 1), Mk(AN, "symlink", "layout", 1)}
+    ELSE {Mk(p, typ, g, 1) : p \in {A, AN}, typ \in {"bind", "tmpfs"}, g \in {"layout", "", "overname"}}
+         \cup {Mk(AB, "bind", "layout", 1), Mk(AB, "rbind", "", 1), Mk(AN, "bind", "layout", 2),
+               Mk(ANM, "bind", "layout", 1), Mk(ABC, "bind", "", 1), Mk(AG, "file", "layout", 1),
+               Mk(AK, "symlink", "layout", 1)}
 
 ValidProfile(S) ==
     /\ \A x, y \in S : x # y => x.p # y.p
